@@ -8,7 +8,9 @@
 (*              writeMessage = closed-check, then the transport write        *)
 (*   ReadPump   select/closed-check; blocking read; closed-check; deliver     *)
 (*   close()    under its once, with the early return when already closed    *)
-(*   Closer     CloseDataConnection without a reason (local close)           *)
+(*   Closer     CloseDataConnection without a reason (local close), or with  *)
+(*              a reason: a close frame for the peer - which reacts to it by  *)
+(*              dropping the connection - and close()                        *)
 (*   SHIP layer reacts to ReportConnectionError with CloseDataConnection     *)
 (* Environment: peer EOF, a failing transport write, a blocked transport     *)
 (* write.  Properties C12 (write vs close) and C13 (loss is reported and     *)
@@ -19,7 +21,8 @@ EXTENDS Naturals, Sequences, FiniteSets, TLC
 CONSTANTS Writers, MsgsPerWriter, Defects, InitFrames, MaxFaults, AllowBlock
 DefectNames == {"chanClose",        \* the write pump closes shipWriteChannel on exit: a blocked / late sender panics
                 "writeErrLeak",     \* closeWithError marks the connection closed before close() runs: close() returns early
-                "closeReported"}    \* a transport write failing because of a local close is reported as a connection error
+                "closeReported",    \* a transport write failing because of a local close is reported as a connection error
+                "frameBeforeMark"}  \* close with a reason: the close frame is written before the connection is marked closed
 ASSUME Defects \subseteq DefectNames
 Has(d) == d \in Defects
 OneFrame == <<"f1">>
@@ -27,10 +30,10 @@ TwoFrames == <<"f1", "f2">>
 NoFrames == <<>>
 VARIABLES closed, closedErr, closeChan, wchan, wchanClosed, once, connClosed, mux,
           wpc, wleft, wres, ppc, pmsg, rpc, rframe, toPeer, fromPeer, eof, failNext, blocked,
-          reports, panicked, delivered, closerDone, faults, accepted, lateDeliver, nblock
+          reports, panicked, delivered, closerDone, faults, accepted, lateDeliver, nblock, cpc, peerClosing
 vars == <<closed, closedErr, closeChan, wchan, wchanClosed, once, connClosed, mux,
           wpc, wleft, wres, ppc, pmsg, rpc, rframe, toPeer, fromPeer, eof, failNext, blocked,
-          reports, panicked, delivered, closerDone, faults, accepted, lateDeliver, nblock>>
+          reports, panicked, delivered, closerDone, faults, accepted, lateDeliver, nblock, cpc, peerClosing>>
 
 Init == /\ closed = FALSE /\ closedErr = FALSE /\ closeChan = FALSE /\ wchan = <<>> /\ wchanClosed = FALSE
         /\ once = FALSE /\ connClosed = FALSE /\ mux = 0
@@ -38,7 +41,7 @@ Init == /\ closed = FALSE /\ closedErr = FALSE /\ closeChan = FALSE /\ wchan = <
         /\ ppc = "select" /\ pmsg = <<>> /\ rpc = "top" /\ rframe = "none"
         /\ toPeer = <<>> /\ fromPeer = InitFrames /\ eof = FALSE /\ failNext = FALSE /\ blocked = FALSE
         /\ reports = 0 /\ panicked = {} /\ delivered = <<>> /\ closerDone = FALSE /\ faults = 0
-        /\ accepted = <<>> /\ lateDeliver = 0 /\ nblock = 0
+        /\ accepted = <<>> /\ lateDeliver = 0 /\ nblock = 0 /\ cpc = "idle" /\ peerClosing = FALSE
 
 \* close(): sync.Once; early return if already marked closed
 CloseEffect ==
@@ -49,12 +52,12 @@ CloseEffect ==
 
 \* ---------------- writers: WriteMessageToWebsocketConnection
 WLock(w)  == wpc[w] = "idle" /\ wleft[w] > 0 /\ mux = 0 /\ mux' = w /\ wpc' = [wpc EXCEPT ![w] = "check"]
-             /\ UNCHANGED <<closed, closedErr, closeChan, wchan, wchanClosed, once, connClosed, wleft, wres, ppc, pmsg, rpc, rframe, toPeer, fromPeer, eof, failNext, blocked, reports, panicked, delivered, closerDone, faults, accepted, lateDeliver, nblock>>
+             /\ UNCHANGED <<closed, closedErr, closeChan, wchan, wchanClosed, once, connClosed, wleft, wres, ppc, pmsg, rpc, rframe, toPeer, fromPeer, eof, failNext, blocked, reports, panicked, delivered, closerDone, faults, accepted, lateDeliver, nblock, cpc, peerClosing>>
 WCheck(w) == wpc[w] = "check" /\
              (IF closed THEN /\ wpc' = [wpc EXCEPT ![w] = "idle"] /\ mux' = 0
                             /\ wleft' = [wleft EXCEPT ![w] = 0] /\ wres' = [wres EXCEPT ![w] = Append(@, "err")]
                        ELSE /\ wpc' = [wpc EXCEPT ![w] = "send"] /\ UNCHANGED <<mux, wleft, wres>>)
-             /\ UNCHANGED <<closed, closedErr, closeChan, wchan, wchanClosed, once, connClosed, ppc, pmsg, rpc, rframe, toPeer, fromPeer, eof, failNext, blocked, reports, panicked, delivered, closerDone, faults, accepted, lateDeliver, nblock>>
+             /\ UNCHANGED <<closed, closedErr, closeChan, wchan, wchanClosed, once, connClosed, ppc, pmsg, rpc, rframe, toPeer, fromPeer, eof, failNext, blocked, reports, panicked, delivered, closerDone, faults, accepted, lateDeliver, nblock, cpc, peerClosing>>
 \* as is: a plain channel send (panics if the pump closed the channel, blocks forever if nobody receives any more);
 \* repaired: select { send | <-closeChannel -> error }
 WSend(w)  == wpc[w] = "send" /\
@@ -69,18 +72,18 @@ WSend(w)  == wpc[w] = "send" /\
               \/ /\ ~Has("chanClose") /\ closeChan                \* repaired: the closed connection wins the select
                  /\ wpc' = [wpc EXCEPT ![w] = "idle"] /\ mux' = 0 /\ wleft' = [wleft EXCEPT ![w] = 0]
                  /\ wres' = [wres EXCEPT ![w] = Append(@, "err")] /\ UNCHANGED <<wchan, panicked, accepted>>)
-             /\ UNCHANGED <<closed, closedErr, closeChan, wchanClosed, once, connClosed, ppc, pmsg, rpc, rframe, toPeer, fromPeer, eof, failNext, blocked, reports, delivered, closerDone, faults, lateDeliver, nblock>>
+             /\ UNCHANGED <<closed, closedErr, closeChan, wchanClosed, once, connClosed, ppc, pmsg, rpc, rframe, toPeer, fromPeer, eof, failNext, blocked, reports, delivered, closerDone, faults, lateDeliver, nblock, cpc, peerClosing>>
 
 \* ---------------- write pump
 PSelectClose == ppc = "select" /\ closeChan /\ ppc' = "exit"
-                /\ UNCHANGED <<closed, closedErr, closeChan, wchan, wchanClosed, once, connClosed, mux, wpc, wleft, wres, pmsg, rpc, rframe, toPeer, fromPeer, eof, failNext, blocked, reports, panicked, delivered, closerDone, faults, accepted, lateDeliver, nblock>>
+                /\ UNCHANGED <<closed, closedErr, closeChan, wchan, wchanClosed, once, connClosed, mux, wpc, wleft, wres, pmsg, rpc, rframe, toPeer, fromPeer, eof, failNext, blocked, reports, panicked, delivered, closerDone, faults, accepted, lateDeliver, nblock, cpc, peerClosing>>
 PSelectMsg   == ppc = "select" /\ wchan # <<>> /\ pmsg' = Head(wchan) /\ wchan' = Tail(wchan)
                 /\ ppc' = (IF closed THEN "exit" ELSE "write")
-                /\ UNCHANGED <<closed, closedErr, closeChan, wchanClosed, once, connClosed, mux, wpc, wleft, wres, rpc, rframe, toPeer, fromPeer, eof, failNext, blocked, reports, panicked, delivered, closerDone, faults, accepted, lateDeliver, nblock>>
+                /\ UNCHANGED <<closed, closedErr, closeChan, wchanClosed, once, connClosed, mux, wpc, wleft, wres, rpc, rframe, toPeer, fromPeer, eof, failNext, blocked, reports, panicked, delivered, closerDone, faults, accepted, lateDeliver, nblock, cpc, peerClosing>>
 \* writeMessage(): closed-check, then the transport write as a separate step (the connection can be closed in between)
 PWrite       == ppc = "write" /\
                 (IF closed THEN ppc' = "exit" ELSE ppc' = "write2")
-                /\ UNCHANGED <<closed, closedErr, closeChan, wchan, wchanClosed, once, connClosed, mux, wpc, wleft, wres, pmsg, rpc, rframe, toPeer, fromPeer, eof, failNext, blocked, reports, panicked, delivered, closerDone, faults, accepted, lateDeliver, nblock>>
+                /\ UNCHANGED <<closed, closedErr, closeChan, wchan, wchanClosed, once, connClosed, mux, wpc, wleft, wres, pmsg, rpc, rframe, toPeer, fromPeer, eof, failNext, blocked, reports, panicked, delivered, closerDone, faults, accepted, lateDeliver, nblock, cpc, peerClosing>>
 \* the transport write fails (injected fault, or the socket was closed under it)
 \*   as is:     closeWithError = mark closed with the error, ReportConnectionError - close() is never run here
 \*   repaired:  close() first (closeChannel, conn.Close), then the error; not reported if the connection was already closed
@@ -95,53 +98,74 @@ PWrite2      == ppc = "write2" /\ ~blocked /\
                          ELSE /\ CloseEffect /\ closedErr' = TRUE /\ reports' = reports + 1
                  ELSE /\ toPeer' = Append(toPeer, pmsg) /\ ppc' = "select"
                       /\ UNCHANGED <<closed, closedErr, reports, failNext, once, closeChan, connClosed>>)
-                /\ UNCHANGED <<wchan, wchanClosed, mux, wpc, wleft, wres, pmsg, rpc, rframe, fromPeer, eof, blocked, panicked, delivered, closerDone, faults, accepted, lateDeliver, nblock>>
+                /\ UNCHANGED <<wchan, wchanClosed, mux, wpc, wleft, wres, pmsg, rpc, rframe, fromPeer, eof, blocked, panicked, delivered, closerDone, faults, accepted, lateDeliver, nblock, cpc, peerClosing>>
 PExit        == ppc = "exit" /\ ppc' = "done" /\ wchanClosed' = (IF Has("chanClose") THEN TRUE ELSE wchanClosed)
-                /\ UNCHANGED <<closed, closedErr, closeChan, wchan, once, connClosed, mux, wpc, wleft, wres, pmsg, rpc, rframe, toPeer, fromPeer, eof, failNext, blocked, reports, panicked, delivered, closerDone, faults, accepted, lateDeliver, nblock>>
+                /\ UNCHANGED <<closed, closedErr, closeChan, wchan, once, connClosed, mux, wpc, wleft, wres, pmsg, rpc, rframe, toPeer, fromPeer, eof, failNext, blocked, reports, panicked, delivered, closerDone, faults, accepted, lateDeliver, nblock, cpc, peerClosing>>
 
 \* ---------------- read pump
 RTop   == rpc = "top" /\ rpc' = (IF closeChan \/ closed THEN "done" ELSE "reading")
-          /\ UNCHANGED <<closed, closedErr, closeChan, wchan, wchanClosed, once, connClosed, mux, wpc, wleft, wres, ppc, pmsg, rframe, toPeer, fromPeer, eof, failNext, blocked, reports, panicked, delivered, closerDone, faults, accepted, lateDeliver, nblock>>
+          /\ UNCHANGED <<closed, closedErr, closeChan, wchan, wchanClosed, once, connClosed, mux, wpc, wleft, wres, ppc, pmsg, rframe, toPeer, fromPeer, eof, failNext, blocked, reports, panicked, delivered, closerDone, faults, accepted, lateDeliver, nblock, cpc, peerClosing>>
 RRead  == rpc = "reading" /\
           \/ (fromPeer # <<>> /\ ~connClosed /\ rframe' = Head(fromPeer) /\ fromPeer' = Tail(fromPeer) /\ rpc' = "got")
           \/ ((connClosed \/ (eof /\ fromPeer = <<>>)) /\ rframe' = "error" /\ rpc' = "got" /\ UNCHANGED fromPeer)
-          /\ UNCHANGED <<closed, closedErr, closeChan, wchan, wchanClosed, once, connClosed, mux, wpc, wleft, wres, ppc, pmsg, toPeer, eof, failNext, blocked, reports, panicked, delivered, closerDone, faults, accepted, lateDeliver, nblock>>
+          /\ UNCHANGED <<closed, closedErr, closeChan, wchan, wchanClosed, once, connClosed, mux, wpc, wleft, wres, ppc, pmsg, toPeer, eof, failNext, blocked, reports, panicked, delivered, closerDone, faults, accepted, lateDeliver, nblock, cpc, peerClosing>>
 RGot   == rpc = "got" /\
           (IF closed THEN rpc' = "done" /\ UNCHANGED <<once, closed, closeChan, connClosed, closedErr, reports>>
           ELSE IF rframe = "error"
                THEN CloseEffect /\ closedErr' = TRUE /\ reports' = reports + 1 /\ rpc' = "done"
                ELSE rpc' = "checked" /\ UNCHANGED <<once, closed, closeChan, connClosed, closedErr, reports>>)
-          /\ UNCHANGED <<wchan, wchanClosed, mux, wpc, wleft, wres, ppc, pmsg, rframe, toPeer, fromPeer, eof, failNext, blocked, panicked, delivered, closerDone, faults, accepted, lateDeliver, nblock>>
+          /\ UNCHANGED <<wchan, wchanClosed, mux, wpc, wleft, wres, ppc, pmsg, rframe, toPeer, fromPeer, eof, failNext, blocked, panicked, delivered, closerDone, faults, accepted, lateDeliver, nblock, cpc, peerClosing>>
 \* the window between the second closed-check and the delivery: one message may arrive after the close
 RDeliver == rpc = "checked" /\ delivered' = Append(delivered, rframe) /\ rpc' = "top"
           /\ lateDeliver' = (IF closed THEN lateDeliver + 1 ELSE lateDeliver)
-          /\ UNCHANGED <<closed, closedErr, closeChan, wchan, wchanClosed, once, connClosed, mux, wpc, wleft, wres, ppc, pmsg, rframe, toPeer, fromPeer, eof, failNext, blocked, reports, panicked, closerDone, faults, accepted, nblock>>
+          /\ UNCHANGED <<closed, closedErr, closeChan, wchan, wchanClosed, once, connClosed, mux, wpc, wleft, wres, ppc, pmsg, rframe, toPeer, fromPeer, eof, failNext, blocked, reports, panicked, closerDone, faults, accepted, nblock, cpc, peerClosing>>
 
 \* ---------------- environment
 LocalClose == ~closerDone /\ closerDone' = TRUE /\ CloseEffect
-          /\ UNCHANGED <<closedErr, wchan, wchanClosed, mux, wpc, wleft, wres, ppc, pmsg, rpc, rframe, toPeer, fromPeer, eof, failNext, blocked, reports, panicked, delivered, faults, accepted, lateDeliver, nblock>>
+          /\ UNCHANGED <<closedErr, wchan, wchanClosed, mux, wpc, wleft, wres, ppc, pmsg, rpc, rframe, toPeer, fromPeer, eof, failNext, blocked, reports, panicked, delivered, faults, accepted, lateDeliver, nblock, cpc, peerClosing>>
+\* CloseDataConnection(code, reason) with a reason: a close frame for the peer, and close().
+\*   as is:    writeMessageWithoutErrorHandling (closed-check, transport write, errors ignored), then close(): the peer's
+\*             reaction to the frame can be read before the connection is marked closed
+\*   repaired: under the once - mark closed, close channel; then the frame; then the socket
+Rest1 == <<closedErr, wchan, wchanClosed, mux, wpc, wleft, wres, ppc, pmsg, rpc, rframe, toPeer, fromPeer, eof, failNext, blocked, reports, panicked, delivered, faults, accepted, lateDeliver, nblock>>
+CReasonFrame == /\ ~closerDone /\ cpc = "idle" /\ Has("frameBeforeMark") /\ closerDone' = TRUE /\ cpc' = "framed"
+                /\ peerClosing' = (IF closed \/ connClosed THEN peerClosing ELSE TRUE)
+                /\ UNCHANGED <<once, closed, closeChan, connClosed>> /\ UNCHANGED Rest1
+CReasonClose == /\ cpc = "framed" /\ cpc' = "done" /\ CloseEffect /\ UNCHANGED peerClosing /\ UNCHANGED <<closerDone>> /\ UNCHANGED Rest1
+CReasonMark  == /\ ~closerDone /\ cpc = "idle" /\ ~Has("frameBeforeMark") /\ closerDone' = TRUE
+                /\ (IF once THEN cpc' = "done" /\ UNCHANGED <<once, closed, closeChan>>
+                    ELSE /\ once' = TRUE
+                         /\ (IF closed THEN cpc' = "done" /\ UNCHANGED <<closed, closeChan>>
+                             ELSE closed' = TRUE /\ closeChan' = TRUE /\ cpc' = "marked"))
+                /\ UNCHANGED <<connClosed, peerClosing>> /\ UNCHANGED Rest1
+CReasonSend  == /\ cpc = "marked" /\ cpc' = "done" /\ peerClosing' = TRUE /\ connClosed' = TRUE
+                /\ UNCHANGED <<once, closed, closeChan, closerDone>> /\ UNCHANGED Rest1
+\* the peer got the close frame and drops the connection - its normal reaction, not a transport fault
+PeerReacts   == /\ peerClosing /\ ~eof /\ eof' = TRUE
+                /\ UNCHANGED <<closed, closedErr, closeChan, wchan, wchanClosed, once, connClosed, mux, wpc, wleft, wres, ppc, pmsg, rpc, rframe, toPeer, fromPeer, failNext, blocked, reports, panicked, delivered, closerDone, faults, accepted, lateDeliver, nblock, cpc, peerClosing>>
+CloserSteps == CReasonClose \/ CReasonSend
 \* what the SHIP layer does when told about an error: CloseConnection -> CloseDataConnection(code, "")
 ShipReacts == reports > 0 /\ ~once /\ CloseEffect
-          /\ UNCHANGED <<closedErr, wchan, wchanClosed, mux, wpc, wleft, wres, ppc, pmsg, rpc, rframe, toPeer, fromPeer, eof, failNext, blocked, reports, panicked, delivered, closerDone, faults, accepted, lateDeliver, nblock>>
+          /\ UNCHANGED <<closedErr, wchan, wchanClosed, mux, wpc, wleft, wres, ppc, pmsg, rpc, rframe, toPeer, fromPeer, eof, failNext, blocked, reports, panicked, delivered, closerDone, faults, accepted, lateDeliver, nblock, cpc, peerClosing>>
 PeerEof  == ~eof /\ faults < MaxFaults /\ eof' = TRUE /\ faults' = faults + 1
-          /\ UNCHANGED <<closed, closedErr, closeChan, wchan, wchanClosed, once, connClosed, mux, wpc, wleft, wres, ppc, pmsg, rpc, rframe, toPeer, fromPeer, failNext, blocked, reports, panicked, delivered, closerDone, accepted, lateDeliver, nblock>>
+          /\ UNCHANGED <<closed, closedErr, closeChan, wchan, wchanClosed, once, connClosed, mux, wpc, wleft, wres, ppc, pmsg, rpc, rframe, toPeer, fromPeer, failNext, blocked, reports, panicked, delivered, closerDone, accepted, lateDeliver, nblock, cpc, peerClosing>>
 WriteFault == ~failNext /\ faults < MaxFaults /\ failNext' = TRUE /\ faults' = faults + 1
-          /\ UNCHANGED <<closed, closedErr, closeChan, wchan, wchanClosed, once, connClosed, mux, wpc, wleft, wres, ppc, pmsg, rpc, rframe, toPeer, fromPeer, eof, blocked, reports, panicked, delivered, closerDone, accepted, lateDeliver, nblock>>
+          /\ UNCHANGED <<closed, closedErr, closeChan, wchan, wchanClosed, once, connClosed, mux, wpc, wleft, wres, ppc, pmsg, rpc, rframe, toPeer, fromPeer, eof, blocked, reports, panicked, delivered, closerDone, accepted, lateDeliver, nblock, cpc, peerClosing>>
 \* the transport stops accepting bytes for a while (full socket buffer), then resumes
 Block   == AllowBlock /\ ~blocked /\ nblock = 0 /\ blocked' = TRUE /\ nblock' = 1
-          /\ UNCHANGED <<closed, closedErr, closeChan, wchan, wchanClosed, once, connClosed, mux, wpc, wleft, wres, ppc, pmsg, rpc, rframe, toPeer, fromPeer, eof, failNext, reports, panicked, delivered, closerDone, faults, accepted, lateDeliver>>
+          /\ UNCHANGED <<closed, closedErr, closeChan, wchan, wchanClosed, once, connClosed, mux, wpc, wleft, wres, ppc, pmsg, rpc, rframe, toPeer, fromPeer, eof, failNext, reports, panicked, delivered, closerDone, faults, accepted, lateDeliver, cpc, peerClosing>>
 Unblock == blocked /\ blocked' = FALSE
-          /\ UNCHANGED <<closed, closedErr, closeChan, wchan, wchanClosed, once, connClosed, mux, wpc, wleft, wres, ppc, pmsg, rpc, rframe, toPeer, fromPeer, eof, failNext, reports, panicked, delivered, closerDone, faults, accepted, lateDeliver, nblock>>
+          /\ UNCHANGED <<closed, closedErr, closeChan, wchan, wchanClosed, once, connClosed, mux, wpc, wleft, wres, ppc, pmsg, rpc, rframe, toPeer, fromPeer, eof, failNext, reports, panicked, delivered, closerDone, faults, accepted, lateDeliver, nblock, cpc, peerClosing>>
 
 Lib  == (\E w \in Writers : WLock(w) \/ WCheck(w) \/ WSend(w)) \/ PSelectClose \/ PSelectMsg \/ PWrite \/ PWrite2 \/ PExit
-        \/ RTop \/ RRead \/ RGot \/ RDeliver \/ ShipReacts \/ Unblock
-Env  == LocalClose \/ PeerEof \/ WriteFault \/ Block
+        \/ RTop \/ RRead \/ RGot \/ RDeliver \/ ShipReacts \/ Unblock \/ CloserSteps
+Env  == LocalClose \/ CReasonFrame \/ CReasonMark \/ PeerReacts \/ PeerEof \/ WriteFault \/ Block
 Next == Lib \/ Env
 WriterSteps(w) == WLock(w) \/ WCheck(w) \/ WSend(w)
 PumpSteps == PSelectClose \/ PSelectMsg \/ PWrite \/ PWrite2 \/ PExit
 ReaderSteps == RTop \/ RRead \/ RGot \/ RDeliver
 Fairness == /\ \A w \in Writers : WF_vars(WriterSteps(w))
-            /\ WF_vars(PumpSteps) /\ WF_vars(ReaderSteps) /\ WF_vars(ShipReacts) /\ WF_vars(Unblock)
+            /\ WF_vars(PumpSteps) /\ WF_vars(ReaderSteps) /\ WF_vars(ShipReacts) /\ WF_vars(Unblock) /\ WF_vars(CloserSteps)
 Spec == Init /\ [][Next]_vars /\ Fairness
 
 (*************************** C12 ***********************************************)
